@@ -116,6 +116,21 @@ PROPS = {
    "ok x k then eof with exactly one value per Next; truncated => error.",
    "Kernel-checked for the CBOR byte-slice decoder; reader decoders and other formats by mirror + correspondence.",
    partial="reader-driven decoders with arbitrary read sizes not yet proved (needs C02)"),
+ "C19": dict(P("DESIGN.md 7 C19",
+   "Lean 4 proof (non-interference of state-owning instances under every interleaving) tied to regenerated SSA facts about package-level state",
+   "interleaving_independent: for any number of instances whose steps read only their own state and an immutable "
+   "environment, every interleaving yields per instance the outputs of running alone; no_shared_mutable_state: the "
+   "hypothesis is discharged against SF/Gen/Globals.lean, regenerated from the SSA form of /repo on every run (no "
+   "store / map update rooted at a package-level variable outside init). Support and failing-input search: op `conc` "
+   "(N in {2,8,32} goroutines x fold->encode->parse->unfold pipelines on own instances over shared inputs and shared "
+   "types, results compared with the sequential run), repeated under `go build -race`.",
+   "Kernel-checked non-interference theorem + regenerated facts; data-race freedom under the Go memory model is partial "
+   "by nature (race detector samples schedules, used as support only).",
+   tb=["sffacts (go/packages + x/tools/go/ssa): what it extracts about package-level variables"],
+   assumptions=["mutable state reachable only through package-level variables or the instance itself (escape through "
+                "arguments shared by the caller is the caller's responsibility)",
+                "the race detector only samples schedules"],
+   partial="data races proper are a runtime/memory-model fact; the theorem covers state confinement"), race=True),
  "C20": P("DESIGN.md 7 C20",
    "Lean 4 proof (invariant + refinement to LRU) over a mirror model; differential correspondence with a recency-order hook",
    "cache_transparent / get_returns_key / cache_bounded / get_refines_lru over the mirror of symbolCache: for every "
